@@ -202,9 +202,12 @@ impl<D: DictionaryAccess> DictBuilder<D> {
             DataSource::File(p) => self.conn.read_file(p),
             DataSource::Data(d) => self.conn.read(d),
         };
-        // the limits follow the buffer even if reading failed half-way: the buffer keeps the new dimensions
-        self.lexicon
-            .set_max_conn_sizes(self.conn.left(), self.conn.right());
+        // the limits follow the buffer even if reading failed half-way: the buffer keeps the new dimensions.
+        // A user dictionary is used with the matrix of its system dictionary, whose dimensions stay the limits
+        if !self.user {
+            self.lexicon
+                .set_max_conn_sizes(self.conn.left(), self.conn.right());
+        }
         result?;
         self.reporter.collect(
             self.conn.left() as usize * self.conn.right() as usize,
